@@ -505,6 +505,61 @@ fn compound(src: &mut Src, st: &mut Stats, _env: &Env) -> CaseResult {
     Ok(())
 }
 
+/// Equivalent rewritings: one sub-expression X (anywhere an expression may
+/// stand) is replaced by `X | @`, `@ | X`, `not_null(X)`, `X || X` or `X && X`.
+/// The whole expression must give the identical result on every document.
+fn rewrites(src: &mut Src, st: &mut Stats, _env: &Env) -> CaseResult {
+    use crate::gen_expr::rewrite_somewhere;
+    let wild = src.chance(60);
+    let doc = match src.below(3) {
+        0 => crate::gen_typed::schema_doc(src),
+        _ => gen_doc(src, &DocOpts { wild_numbers: wild, ..DocOpts::default() }),
+    };
+    let dt = doc.to_json();
+    let tree = match src.below(3) {
+        0 => {
+            let d = 1 + src.below(3);
+            crate::gen_typed::gen_typed(src, d)
+        }
+        _ => {
+            let o = ExprOpts { max_depth: 2 + src.below(3), extremes: false, funcs: src.chance(100), ..ExprOpts::default() };
+            gen_expr(src, 0, Some(&doc), &o)
+        }
+    };
+    let (tree2, how) = match rewrite_somewhere(&tree, src) {
+        Some(x) => x,
+        None => {
+            st.discard();
+            return Ok(());
+        }
+    };
+    let (t1, t2) = match (crate::print::minimal_text(&tree), crate::print::minimal_text(&tree2)) {
+        (Ok(a), Ok(b2)) => (a, b2),
+        _ => {
+            st.discard();
+            return Ok(());
+        }
+    };
+    st.eval();
+    let case = json!({"expression": t1, "rewritten": t2, "rewrite": how, "document": dt});
+    let a = search_text(&t1, &dt);
+    let b2 = search_text(&t2, &dt);
+    let same = match (&a, &b2) {
+        (ImpOut::Ok(x), ImpOut::Ok(y)) => x.exact_eq(y),
+        (ImpOut::SearchErr(_), ImpOut::SearchErr(_)) => true,
+        (ImpOut::CompileErr(_), ImpOut::CompileErr(_)) => true,
+        _ => false,
+    };
+    if !same {
+        return Err(Failure::new("rewrites", "equivalent-rewriting-changes-result", format!("{} gives {} but {} gives {}", t1, a.brief(), t2, b2.brief()), case));
+    }
+    st.class(&format!("rewrite:{}", how));
+    if matches!(a, ImpOut::Ok(ref v) if !v.is_null()) && st.nontrivial(&format!("{}\u{0}{}\u{0}{}", t1, t2, dt)) {
+        st.sample(|| json!({"expression": t1, "rewritten": t2}));
+    }
+    Ok(())
+}
+
 /// Projections over large arrays (1000..5000 elements): the result is still the
 /// per-element results in order, however many elements there are.
 fn scale(env: &Env, st: &mut Stats) -> Vec<Failure> {
@@ -605,6 +660,7 @@ pub fn property() -> Property {
         minimise: None,
         subs: vec![
             Sub::Custom(CustomSub { name: "scale", run: scale, replay: replay_scale }),
+            Sub::Bytes(BytesSub { name: "rewrites", f: rewrites, max_len: 1500, quick: Budget { threads: 8, cases: 12000 }, thorough: Budget { threads: 16, cases: 300_000 }, keep_unreproducible: false }),
             Sub::Bytes(BytesSub { name: "compound", f: compound, max_len: 1500, quick: Budget { threads: 8, cases: 24000 }, thorough: Budget { threads: 16, cases: 200_000 }, keep_unreproducible: false }),
         ],
     }
